@@ -49,7 +49,9 @@ Inductive stmt :=
 | SDimDerived (n : string) (ds : list dexpr)
 | SUnitBase (n : string) (a : option dexpr) (autodim : string)
 | SUnitDerived (n : string) (a : option annot) (e : expr)
-| SProc (p : proc) (args : list expr).
+| SProc (p : proc) (args : list expr)
+| SForeign (f : string) (tparams : list (string * bool)) (params : list (string * annot)) (ret : annot).
+(* SForeign: a function declaration without body (foreign function); all types are annotated *)
 
 (* ------------------------------------------------------------------ schemes, environment *)
 (* TypeScheme for values; function types are kept apart because Type::Fn is not in `ty` *)
@@ -520,6 +522,16 @@ Definition elab_stmt (st : stmt) (s : tc) : res (sres * list ty * tc) :=
       let s8 := add_ok s7 (CEq bt rty) in
       let s9 := with_env s8 ((f, IdFunction (FConcrete pts rty)) :: genv) in
       Ok (RFn f pts rty lts, nl ++ nb, s9)
+  | SForeign f tps ps ret =>
+      (* body.is_none(): parameter and return types come from the annotations only *)
+      let genv := tc_env s in
+      do s1 <- intro_tparams tps s [];
+      do rp <- elab_params (map (fun p => (fst p, Some (snd p))) ps) s1;
+      let '(pts, s2) := rp in
+      do rty <- type_from_annotation (tc_reg s2) ret;
+      let s3 := add_ok s2 (CEq rty rty) in
+      let s4 := with_env s3 ((f, IdFunction (FConcrete pts rty)) :: genv) in
+      Ok (RFn f pts rty [], [], s4)
   | SDimBase n =>
       if reg_contains (tc_reg s) n then Err ENameResolutionError else
       let rg := tc_reg s in
@@ -649,21 +661,25 @@ Definition generalize (dts : list var) (sc : scheme) : res scheme :=
       Ok (Quantified (length free) t' bs')
   | _ => Ok sc
   end.
-Definition fgeneralize (dts : list var) (fs : fscheme) : res fscheme :=
+(* generalize_with_leading for a function type: the declared type parameters `lead` of the
+   statement are quantified first, in the declared order (whether or not they occur), then the
+   remaining free variables in sorted order; bounds only for variables occurring in the type *)
+Definition fgeneralize (lead : list var) (dts : list var) (fs : fscheme) : res fscheme :=
   match fs with
   | FConcrete ps r =>
-      let free := fn_vars ps r in
-      let bs := bounds_for dts (fun v => existsb (var_eqb v) free) in
+      let occ := fn_vars ps r in
+      let free := lead ++ filter (fun v => negb (existsb (var_eqb v) lead)) occ in
+      let bs := bounds_for dts (fun v => existsb (var_eqb v) occ) in
       do ps' <- mapM (quantify_ty free 0) ps;
       do r' <- quantify_ty free 0 r;
       do bs' <- mapM (quantify_ty free 0) bs;
       Ok (FQuantified (length free) ps' r' bs')
   | _ => Ok fs
   end.
-Definition egeneralize (dts : list var) (g : env) : res env :=
+Definition egeneralize (lead : list var) (dts : list var) (g : env) : res env :=
   mapM (fun xe => match snd xe with
                   | IdNormal sc => do sc' <- generalize dts sc; Ok (fst xe, IdNormal sc')
-                  | IdFunction fs => do fs' <- fgeneralize dts fs; Ok (fst xe, IdFunction fs')
+                  | IdFunction fs => do fs' <- fgeneralize lead dts fs; Ok (fst xe, IdFunction fs')
                   end) g.
 
 (* exponents_for + lcm of the denominators *)
@@ -725,12 +741,13 @@ Definition check_statement (st : stmt) (s0 : tc) : res (sout * tc) :=
       match lcm_pass dts nodes1 sr1 with
       | Err _ => Err ESubstitutionError
       | Ok (_, sr2) =>
-          do env2 <- egeneralize dts env1;
+          let lead := map (fun p => VNamed (fst p)) (reg_tparams (tc_reg s1)) in
+          do env2 <- egeneralize lead dts env1;
           let s2 := mkTc env2 (tc_reg s1) (tc_next s1) (tc_cs s1) in
           match sr2 with
           | RExpr t => do sc <- generalize dts (Concrete t); Ok (OExpr sc, s2)
           | RLet x t => do sc <- generalize dts (Concrete t); Ok (OLet x sc, s2)
-          | RFn f ps rt _ => do fs <- fgeneralize dts (FConcrete ps rt); Ok (OFn f fs, s2)
+          | RFn f ps rt _ => do fs <- fgeneralize lead dts (FConcrete ps rt); Ok (OFn f fs, s2)
           | RUnit x t _ => do sc <- generalize dts (Concrete t); Ok (OUnit x sc, s2)
           | RDim => Ok (ODimDef, s2)
           | RProc => Ok (OProc, s2)
